@@ -827,6 +827,16 @@ func (r *proxyStreamReceiver) recvReplicationMessages(
 			for targetShardID := range tasksByTargetShard {
 				sentByTarget[targetShardID] = false
 			}
+			// Every target that is about to be handed tasks must hold back the aggregated minimum
+			// from now on, even before its first acknowledgement arrives: seed its ack level with
+			// the first task id it is given (inclusive: nothing below it was routed to that target).
+			r.ackMu.Lock()
+			for targetShardID, tasks := range tasksByTargetShard {
+				if _, seen := r.ackByTarget[targetShardID]; !seen {
+					r.ackByTarget[targetShardID] = tasks[0].SourceTaskId
+				}
+			}
+			r.ackMu.Unlock()
 			r.logger.Debug("Going to broadcast ReplicationTasks to target shards", tag.NewStringTag("tasksByTargetShard", fmt.Sprintf("%v", tasksByTargetShard)))
 			numRemaining := len(tasksByTargetShard)
 			backoff := 10 * time.Millisecond
